@@ -28,7 +28,7 @@ func init() {
 		Level: "exploration",
 		Modes: []Mode{{Name: "proto", Weight: 2}, {Name: "sio", Weight: 1}},
 		Gen:   genC15, Run: runC15, Enum: enumC15,
-		QuickRuns: 5000, ThoroughRuns: 40000,
+		QuickRuns: 5000, ThoroughRuns: 320000,
 		Rule: "plan = (ReconnectionAttempts 0..5, ReconnectionDelay in {50,100,500} ms, ReconnectionDelayMax in {1x,2x,10x}, jitter in {0,0.3,0.5,1}, outage kind refuse|dial-blackhole|crash-restart|flapping, outage start and length from 0.2x to 3x the sum of the back-off delays, 0..20 emits of kind plain|volatile|ack at instants before/during/after the outage, transport, network and stall parameters) from VERIF_SEED; " +
 			"non-trivial = at least two reconnection attempts failed and an emit was made while the socket was disconnected; distinct = distinct history digest",
 		Assumptions: []string{
